@@ -314,7 +314,7 @@ Proof.
     { intros s0 H0. destruct (st =? 1).
       - destruct ch; [discriminate|]. inversion H0; subst; exact I.
       - eapply try_expand_inv; eassumption. }
-    destruct (find _ (active s)) as [m|]; [destruct (m_st m =? st); [|discriminate]|]; apply K; exact H.
+    apply K; exact H.
   - (* adjust *)
     destruct (negb (total s + amount =? sample)); [discriminate|].
     destruct (negb (ema_ok s sample w avg)); [discriminate|].
@@ -359,7 +359,7 @@ Proof.
   - discriminate.
   - assert (K : (if st =? 1 then match ch with None => Ok s | Some _ => Inadm end else try_expand s ch) <> Crash).
     { destruct (st =? 1); [destruct ch; discriminate|apply T; exact I]. }
-    destruct (find _ (active s)) as [m|]; [destruct (m_st m =? st); [exact K|discriminate]|exact K].
+    exact K.
   - destruct (negb (total s + amount =? sample)); [discriminate|].
     destruct (negb (ema_ok s sample w avg)); [discriminate|].
     destruct (up_cond c s avg).
@@ -476,7 +476,7 @@ Proof.
     { intros s0 H0. destruct (st =? 1).
       - destruct ch; [discriminate|]. inversion H0; subst. lia.
       - apply try_expand_shape in H0 as (_ & _ & _ & [(_ & ->)|(e & _ & _ & _ & _ & _ & Hs)]); lia. }
-    destruct (find _ (active s)) as [m|]; [destruct (m_st m =? st); [|discriminate]|]; apply K in H; lia.
+    apply K in H; lia.
   - destruct (negb (total s + amount =? sample)); [discriminate|].
     destruct (negb (ema_ok s sample w avg)); [discriminate|].
     destruct (up_cond c s avg).
@@ -525,7 +525,7 @@ Proof.
         assert (K : forall s0, (if st =? 1 then match ch with None => Ok s | Some _ => Inadm end else try_expand s ch) = Ok s0 -> members s0 = members s).
         { intros s0 H0. destruct (st =? 1); [destruct ch; [discriminate|]; inversion H0; reflexivity|].
           apply try_expand_shape in H0. tauto. }
-        destruct (find _ (active s)) as [m|]; [destruct (m_st m =? st); [|discriminate]|]; apply K in H; rewrite H; lia.
+        apply K in H; rewrite H; lia.
       - left. destruct (negb (total s + amount =? sample)); [discriminate|].
         destruct (negb (ema_ok s sample w avg)); [discriminate|].
         destruct (up_cond c s avg).
